@@ -21,3 +21,4 @@ pub fn after_commit(_ex: &mut Exec, _tx: &[(u8, TxOp)]) {}
 pub fn lock_tree(_ex: &mut Exec, _c: u8, _k: usize) {}
 pub fn unlock_tree(_ex: &mut Exec, _c: u8, _k: usize) {}
 pub fn release_all(_ex: &mut Exec) {}
+pub fn forget_all(_ex: &mut Exec) {}
